@@ -166,7 +166,9 @@ loop:
 			break
 		}
 		p.setState(types.ProcessStateRestarting)
+		p.stateMtx.Lock()
 		p.procState.Restarts += 1
+		p.stateMtx.Unlock()
 		log.Info().Msgf("Restarting %s in %v second(s)... Restarts: %d",
 			p.getName(), p.getBackoff().Seconds(), p.procState.Restarts)
 
@@ -354,7 +356,10 @@ func (p *Process) waitForCompletion() int {
 
 func (p *Process) waitUntilReady() bool {
 	<-p.procReadyCtx.Done()
-	if p.procState.Health == types.ProcessHealthReady {
+	p.stateMtx.Lock()
+	health := p.procState.Health
+	p.stateMtx.Unlock()
+	if health == types.ProcessHealthReady {
 		return true
 	}
 	log.Error().Msgf("Process %s was aborted and won't become ready", p.getName())
@@ -658,10 +663,14 @@ func (p *Process) handleOutput(pipe io.ReadCloser, output string, handler func(m
 				Msgf("error reading from %s", output)
 			break
 		}
-		if p.procConf.ReadyLogLine != "" && p.procState.Health == types.ProcessHealthUnknown && strings.Contains(line, p.procConf.ReadyLogLine) {
-			p.procState.Health = types.ProcessHealthReady
-			p.readyLogCancelFn(nil)
-			verifHealth(p)
+		if p.procConf.ReadyLogLine != "" && strings.Contains(line, p.procConf.ReadyLogLine) {
+			p.stateMtx.Lock()
+			if p.procState.Health == types.ProcessHealthUnknown {
+				p.procState.Health = types.ProcessHealthReady
+				p.readyLogCancelFn(nil)
+				verifHealth(p)
+			}
+			p.stateMtx.Unlock()
 		}
 		p.checkElevatedProcOutput(line)
 		handler(strings.TrimSuffix(line, "\n"))
@@ -744,10 +753,21 @@ func (p *Process) setStateUnlessEnded(state string) bool {
 	return true
 }
 
+// getState returns a copy of the state: the state object itself is written
+// by the process goroutines all the time
 func (p *Process) getState() *types.ProcessState {
 	p.updateProcState()
 	p.stateMtx.Lock()
 	defer p.stateMtx.Unlock()
+	p.confMtx.Lock()
+	defer p.confMtx.Unlock()
+	state := *p.procState
+	return &state
+}
+
+// getStatePtr returns the state object itself (it is handed on from one
+// instance of a process to the next)
+func (p *Process) getStatePtr() *types.ProcessState {
 	return p.procState
 }
 
@@ -758,6 +778,8 @@ func (p *Process) getStateData(filter filterFn) {
 	p.stateMtx.Lock()
 	defer p.stateMtx.Unlock()
 	if filter != nil {
+		p.confMtx.Lock()
+		defer p.confMtx.Unlock()
 		filter(p.procState)
 	}
 }
@@ -862,17 +884,22 @@ func (p *Process) onLivenessCheckEnd(_, isFatal bool, err string) {
 
 func (p *Process) onReadinessCheckEnd(isOk, isFatal bool, err string) {
 	if isFatal {
-		p.procState.Health = types.ProcessHealthNotReady
-		verifHealth(p)
+		p.setHealth(types.ProcessHealthNotReady)
 		log.Info().Msgf("%s is not ready anymore - %s", p.getName(), err)
 		p.logBuffer.Write("Error: readiness check fail - " + err)
 		_ = p.internalStop()
 	} else if isOk {
-		p.procState.Health = types.ProcessHealthReady
+		p.setHealth(types.ProcessHealthReady)
 		p.readyCancelFn()
 	} else {
-		p.procState.Health = types.ProcessHealthNotReady
+		p.setHealth(types.ProcessHealthNotReady)
 	}
+}
+
+func (p *Process) setHealth(health string) {
+	p.stateMtx.Lock()
+	defer p.stateMtx.Unlock()
+	p.procState.Health = health
 	verifHealth(p)
 }
 
@@ -905,8 +932,11 @@ func (p *Process) getOpenPorts(ports *types.ProcessPorts) error {
 		log.Err(err).Msgf("failed to get open ports for %s", p.getName())
 		return err
 	}
+	p.stateMtx.Lock()
+	pid := p.procState.Pid
+	p.stateMtx.Unlock()
 	for _, e := range socks {
-		if e.Process != nil && e.Process.Pid == p.procState.Pid {
+		if e.Process != nil && e.Process.Pid == pid {
 			log.Debug().Msgf("%s is listening on %d", p.getName(), e.LocalAddr.Port)
 			ports.TcpPorts = append(ports.TcpPorts, e.LocalAddr.Port)
 		}
